@@ -676,3 +676,108 @@ func c18AfterCreation(r *Run) {
 		}
 	}
 }
+
+// ---------- C01: sizes (counters, indices and recursion depths that only large inputs reach) ----------
+
+func c01Sizes(r *Run) {
+	mkList := func(n int, last interface{}) []interface{} {
+		l := make([]interface{}, n)
+		for i := range l {
+			l[i] = 0
+		}
+		if n > 0 {
+			l[n-1] = last
+		}
+		return l
+	}
+	add := func(e string, d interface{}, stream string) {
+		c := evalCase{expr: e, d: d, tag: "bexpr"}
+		if !c.parse() {
+			r.Count("generator:unparseable")
+			return
+		}
+		o := exprObs(e, d)
+		r.Evaluations++
+		r.Count("outcome:" + o)
+		r.Count("stream:" + stream)
+		r.Seen(stream + "|" + opSig(c.ast) + "|" + o)
+		m := map[string]interface{}{"expression": truncate(e, 300), "datum": "see the family " + stream, "datum_type": fmt.Sprintf("%T", d)}
+		r.Model(c.cmd(), o, m)
+	}
+	for _, n := range []int{255, 256, 257, 300, 1000, 65535, 65536, 65537} {
+		if r.Tier != "thorough" && n > 1000 && n != 65537 {
+			continue
+		}
+		l := mkList(n, 7)
+		ints := make([]int, n)
+		ints[n-1] = 7
+		d := map[string]interface{}{"l": l, "ints": ints, "n": n}
+		tf := func(b bool) string {
+			if b {
+				return "T"
+			}
+			return "F"
+		}
+		for _, t := range []struct{ e, want string }{
+			{"any l as x { x == 7 }", "T"}, {"all l as x { x == 0 }", "F"}, {"any l as i, x { x == 7 and i == " + fmt.Sprint(n-1) + " }", "T"}, {"7 in ints", "T"}, {"7 not in l", "F"}, {fmt.Sprintf("l.%d == 7", n-1), "T"}, {fmt.Sprintf("l.%d == 7", n), "E"},
+			{fmt.Sprintf(`"/ints/%d" == 7`, n-1), "T"}, {"all ints as i, _ { i != " + fmt.Sprint(n) + " }", "T"}, {"l is not empty", "T"}, {"any l as i, _ { i == 256 }", tf(n > 256)}, {"any l as i, _ { i == 65536 }", tf(n > 65536)},
+			{"all l as i, x { x == 0 or i == " + fmt.Sprint(n-1) + " }", "T"}, {"( any ints as x { x == 7 } ) and not ( any ints as x { x == 8 } )", "T"},
+		} {
+			stream := fmt.Sprintf("sizes:list-%d", n)
+			if n <= 1000 {
+				add(t.e, d, stream) // also against the model
+			}
+			o := exprObs(t.e, d)
+			r.Evaluations++
+			r.Seen(stream + "|" + t.e + "|" + o)
+			if o != t.want {
+				r.Violate("large-collection", stream+"|"+t.e, map[string]interface{}{"expression": t.e, "datum": fmt.Sprintf("l = %d zeros then 7 ([]interface{}), ints likewise ([]int)", n-1)}, "expected "+t.want+" got "+o)
+			}
+		}
+	}
+	// maps with many keys: the visiting order is the sorted one also beyond a few entries
+	for _, n := range []int{17, 300, 5000} {
+		if r.Tier != "thorough" && n > 300 {
+			continue
+		}
+		m := map[string]interface{}{}
+		for i := 0; i < n; i++ {
+			m[fmt.Sprintf("k%05d", i)] = i
+		}
+		m["k00003"] = "bad" // an element that errors, after some that are decisive and before others
+		d := map[string]interface{}{"m": m}
+		for _, e := range []string{"any m as k, v { v == 2 }", "any m as k, v { v == 4 }", "all m as k, v { v != 4 }", "all m as k, v { v != 2 }", "any m as k { k == k00016 }", fmt.Sprintf("m.k%05d == %d", n-1, n-1), "k00003 in m", "any m as _, v { v == bad }"} {
+			add(e, d, fmt.Sprintf("sizes:map-%d", n))
+		}
+	}
+	// deep data, deep pointers, deep expressions, long strings and keys
+	{
+		var deep interface{} = 1
+		path := ""
+		for i := 0; i < 40; i++ {
+			deep = map[string]interface{}{"a": deep}
+			path += "a."
+		}
+		p1 := 1
+		p2 := &p1
+		p3 := &p2
+		p4 := &p3
+		p5 := &p4
+		var nilp ***int
+		long := strings.Repeat("ab", 40000)
+		key := strings.Repeat("k", 3000)
+		d := map[string]interface{}{"d": deep, "p": p5, "np": &nilp, "s": long, key: 1, "l": []interface{}{p5, 2}}
+		chain := "s is not empty"
+		nest := "p == 1"
+		for i := 0; i < 120; i++ {
+			chain += pick(NewRng(uint64(i)), []string{" and ", " or "}) + pick(NewRng(uint64(i)+7), []string{"p == 1", "p != 1", "zz == 1", "s is empty"})
+		}
+		for i := 0; i < 6; i++ { // (the grammar's parse time is exponential in the parenthesis depth)
+			nest = "not ( " + nest + " or zz.q == 1 )"
+		}
+		for _, e := range []string{"d." + path[:len(path)-1] + " == 1", "d." + path + "a == 1", "p == 1", "np == 1", "np is empty", "any l as x { x == 1 }", "s matches `(ab)+$`", "s contains " + strings.Repeat("ab", 300) + "a",
+			"s == " + long, key + " == 1", `"/` + key + `" == 1`, chain, nest, "1 in l"} {
+			add(e, d, "sizes:depth")
+		}
+	}
+}
